@@ -18,6 +18,8 @@ pub struct RunCfg {
 	pub max_seconds: f64,
 	/// signatures of known findings: counted, one example kept, never stop the run early
 	pub known: Vec<String>,
+	/// property whose check is running: only its violations stop a run early
+	pub target_prop: Option<String>,
 	pub miri: bool,
 	/// running under an external leak detector: do not leak on purpose
 	pub leakcheck: bool,
@@ -67,7 +69,7 @@ impl Report {
 			}
 		}
 		for v in o.violations {
-			if self.violations.len() < 200 || std::env::var_os("HLMON_KEEP_GOING").is_some() {
+			if self.violations.len() < 600 || std::env::var_os("HLMON_KEEP_GOING").is_some() {
 				self.violations.push(v);
 			}
 		}
@@ -192,7 +194,24 @@ pub fn par_run(
 							k += 1;
 						}
 					}
-					nviol.fetch_add(local.violations.len() - before, Ordering::Relaxed);
+					let counted = local.violations[before..]
+						.iter()
+						.filter(|v| cfg.target_prop.as_ref().map_or(true, |t| *t == v.prop))
+						.count();
+					nviol.fetch_add(counted, Ordering::Relaxed);
+					// keep memory bounded when another property's monitor fires a lot
+					if local.violations.len() > 400 {
+						let t = cfg.target_prop.clone();
+						let mut kept = 0;
+						local.violations.retain(|v| {
+							if t.as_ref().map_or(false, |t| *t == v.prop) {
+								true
+							} else {
+								kept += 1;
+								kept <= 100
+							}
+						});
+					}
 					done.fetch_add(1, Ordering::Relaxed);
 				}
 				total.lock().unwrap().merge(local);
